@@ -122,19 +122,19 @@ func (f Fault) String() string {
 
 // OpCtx is the per-operation state shared by the transport, the waiter and the storage wrapper.
 type OpCtx struct {
-	mu      sync.Mutex
-	ID      int
-	Fault   Fault
-	Fired   bool
+	mu    sync.Mutex
+	ID    int
+	Fault Fault
+	Fired bool
 	// Also is a second cluster-side fault of the "kubematch" kind (one request, named by verb and path, rejected once, and
 	// only after the first fault has fired): for the properties that speak about a failure DURING the handling of a failure.
 	Also      Fault
 	AlsoFired bool
 	Crashed   bool
-	KubeN   int
-	WaitN   int
-	StoreN  int // counted store calls (writes, plus reads when Fault.StoreReads)
-	ExtN    int // storage + cluster calls
+	KubeN     int
+	WaitN     int
+	StoreN    int // counted store calls (writes, plus reads when Fault.StoreReads)
+	ExtN      int // storage + cluster calls
 	// Gate, when set, is called before every storage and cluster call and may block (schedulers, barriers).
 	Gate func(layer, verb, key string)
 	// Freeze makes every call fail without effect (a dead process).
